@@ -13,7 +13,7 @@ type step func(g *Gen) (Op, string, bool)
 
 // Scenarios lists the available scripts (index 0 = none).
 var Scenarios = []string{"", "connect", "silence", "restart_same_creds", "restart_disconnected", "fail_restart",
-	"late_response", "two_transports", "multi_pair", "prflx_supersede", "zero_failed_timeout", "foreign_indication"}
+	"late_response", "two_transports", "multi_pair", "prflx_supersede", "zero_failed_timeout", "foreign_indication", "neighbour_port"}
 
 func (g *Gen) sAL(i int) step {
 	return func(g *Gen) (Op, string, bool) {
@@ -141,6 +141,19 @@ func sData(li, ri int) step {
 	}
 }
 
+// data from the known remote's IP but another port (first a neighbouring one: same 256-port block)
+func sDataNeighbour(li, ri, delta int) step {
+	return func(g *Gen) (Op, string, bool) {
+		if li >= len(g.locals) || ri >= len(g.remotes) {
+			return Op{}, "", false
+		}
+		a := g.remotes[ri].Addr
+		a.Port += delta
+		g.Mutated++
+		return Op{Kind: "ID", LH: g.locals[li].H, Src: a, Payload: g.payload()}, "data_neighbour_port", true
+	}
+}
+
 func sWrite(g *Gen) (Op, string, bool) { return Op{Kind: "WR", Payload: g.payload()}, "write", true }
 func sRead(g *Gen) (Op, string, bool)  { return Op{Kind: "RD"}, "read", true }
 
@@ -237,6 +250,10 @@ func (g *Gen) Plan(name string, ctl bool) {
 			sPeerReq(0, 1, true, 1), sPeerReq(0, 0, true, 1), sPeerReq(0, 1, true, 1), sTick, sAnswerTo(1), sAnswerTo(1), sTick, sAnswerTo(1)}
 	case "prflx_supersede":
 		g.script = []step{g.sAL(0), sStart(ctl), sPeerReqFrom(0, unknownSrc[1], true), g.sAR(12), sAnswer(true), sWriteToPair, sTick, sAnswer(true), sWriteToPair}
+	case "neighbour_port":
+		// the validated-source cache must not admit other ports of the peer's address
+		g.script = connect(0, 0)
+		g.script = append(g.script, sData(0, 0), sRead, sDataNeighbour(0, 0, 1), sRead, sData(0, 0), sDataNeighbour(0, 0, 255), sDataNeighbour(0, 0, 256), sRead, sRead, sRead)
 	case "foreign_indication":
 		g.script = connect(0, 0)
 		g.script = append(g.script, sAdvance(5*Grid), sForeignIndication(0, 0), sTick, sAdvance(disc-5*Grid), sTick, sTick)
